@@ -234,7 +234,7 @@ def obligations(prop, tier):
             "C12": [KD("u_extract", 9, 3000, 28), KD("u_extract", 10, 3000, 28), KD("u_extract", 11, 3000, 28)],
             "C17": [K("u_insert", True, 2400, 28)],
             "C15": [KB("u_setup_context", "len3", {"FLEN": 3}), KB("u_setup_context", "len5", {"FLEN": 5}), KB("u_setup_context", "len2", {"FLEN": 2}),
-                    FIND(1, 3, 1, 1, 2, 2400), FIND(1, 3, 1, 1, 1, 2400), FIND(2, 4, 1, 2, 0, 3600), FIND(1, 5, 1, 2), FIND(1, 4, 1, 1), FIND(1, 2, 1, 1),
+                    FIND(1, 3, 1, 1, 2, 2400), FIND(1, 3, 1, 1, 1, 2400), FIND(1, 5, 1, 2), FIND(1, 4, 1, 1), FIND(1, 2, 1, 1),
                     KB("u_ctx_new", "dir2-src2", {"DIRLEN": 2, "SRCLEN": 2}), KB("u_ctx_new", "dir0-src1", {"DIRLEN": 0, "SRCLEN": 1}),
                     KB("u_ctx_write_path", "dir1", {"DIRLEN": 1})],
         }
